@@ -102,7 +102,17 @@ func (iter *FastIterator) Next() {
 	}
 
 	if iter.fastIterator == nil {
+		if iter.err != nil {
+			// the underlying iterator could not be created
+			iter.valid = false
+			return
+		}
 		iter.fastIterator, iter.err = iter.ndb.getFastIterator(iter.start, iter.end, iter.ascending)
+		if iter.err != nil {
+			iter.fastIterator = nil
+			iter.valid = false
+			return
+		}
 		iter.valid = true
 	} else {
 		iter.fastIterator.Next()
